@@ -70,7 +70,8 @@ package internals
 //@ ghost tf_ran Int
 //@ spec LC(c) = L(c.ExecCtx.Errors)
 //@ spec zrep(s) = (istype(s, *ErrsList) ==> ((s.(*ErrsList).List == nil) <==> (L(s) == empty()))) && (istype(s, *ErrsMap) ==> ((s.(*ErrsMap).M == nil) <==> (L(s) == empty())))
-//@ spec wfexec(x) = x != nil && x.Errors != nil && x.Fmter != nil && (istype(x.Errors, *ErrsList) || istype(x.Errors, *ErrsMap)) && zrep(x.Errors)
+//@ spec iscontainer(s) = (istype(s, *ErrsList) && s.(*ErrsList) != nil) || (istype(s, *ErrsMap) && s.(*ErrsMap) != nil)
+//@ spec wfexec(x) = x != nil && x.Fmter != nil && iscontainer(x.Errors) && zrep(x.Errors)
 //@ spec wfctx(c) = c != nil && wfexec(c.ExecCtx) && c.Path != nil
 //@ spec clean(c) = !c.CanCatch && !c.Exit
 // Footprint of recording an issue in the execution x: the ghost log, the container's representation and the
@@ -114,14 +115,14 @@ package internals
 // ---- interface contracts
 
 //@ iface ZogIssues.Add(self, path, err)
-//@   requires self != nil && (istype(self, *ErrsList) || istype(self, *ErrsMap))
+//@   requires iscontainer(self)
 //@   requires rep: zrep(self)
 //@   modifies L(self), when(istype(self, *ErrsList), self.(*ErrsList).List), when(istype(self, *ErrsMap), self.(*ErrsMap).M), anyelems(Ptr), mapsof(ZogIssueMap)
 //@   ghost_update L(self) := push(L(self), err)
 //@   ensures[C02] rep: zrep(self)
 
 //@ iface ZogIssues.IsEmpty(self)
-//@   requires self != nil && (istype(self, *ErrsList) || istype(self, *ErrsMap))
+//@   requires iscontainer(self)
 //@   requires rep: zrep(self)
 //@   pure
 //@   ensures[C02] result == (L(self) == empty())
